@@ -5,13 +5,13 @@
 ID=$1; V=$2; shift 2
 SRC=/tmp/seed_out/$ID/$V
 [ -f $SRC/patch.diff ] || { echo "no patch for $ID/$V"; exit 2; }
-W=/tmp/seedrepo_$ID$V
+W=/tmp/seedrepo_$ID$V$$
 rm -rf $W; mkdir -p $W; cp -r /repo/src /repo/tests /repo/benchmarks /repo/pyproject.toml $W/ 2>/dev/null
 cd $W && git init -q . >/dev/null 2>&1
 if ! git apply --whitespace=nowarn $SRC/patch.diff 2>$W/apply.err; then
   patch -p1 < $SRC/patch.diff > $W/apply.err 2>&1 || { echo "$ID/$V patch does not apply"; cat $W/apply.err | tail -3; exit 3; }
 fi
-cd /verif
+VD=${VERIF_EVAL_DIR:-/verif}; cd $VD
 DEMO_MUT=$(PYTHONPATH=$W/src PYTHONWARNINGS=ignore timeout 600 /venv/bin/python $SRC/demo.py 2>&1 | grep -v "^WARNING\|UserWarning\|warnings.warn" | tail -2); RC_MUT=${PIPESTATUS[0]}
 PYTHONPATH=$W/src PYTHONWARNINGS=ignore timeout 600 /venv/bin/python $SRC/demo.py >/dev/null 2>&1; RC_MUT=$?
 PYTHONPATH=/repo/src PYTHONWARNINGS=ignore timeout 600 /venv/bin/python $SRC/demo.py >/dev/null 2>&1; RC_ORIG=$?
